@@ -61,6 +61,9 @@ def _uni(prop, tier):
                         continue
                     nm = f"{tag}/{op}/" + ",".join(f"{k}={'+'.join(v) if isinstance(v, tuple) else v}" for k, v in extra.items())
                     out.append(Scenario(nm, nv.nv_step, params=dict(base, op=op, **extra), entry=(f"UniLpMarket.{op}", "Broker.get_account_status"), canary=_canary(prop) if (op, t0q, aq, extra.get("add_range")) == ("add", True, "same", "inside") and not extra["positions"] else None, **kw))
+                if prop == "C04" and aq == "same":
+                    for op in ("add_misaligned_ticks", "add_inverted_range", "swap_same_token", "swap_foreign_token"):
+                        out.append(Scenario(f"{tag}/{op}", nv.nv_step, params=dict(base, op=op, positions=("inside",)), entry=("UniLpMarket",), expect_outcomes=("rejected",), **kw))
                 chains = [("add", "remove", dict(positions=(), add_range="inside")), ("remove", "collect", dict(positions=("inside",), partial=True, collect=False)), ("buy", "sell", dict(positions=()))]
                 for op, op2, extra in chains:
                     if tier == "quick" and (aq == "other" or not t0q):
@@ -81,6 +84,10 @@ def _squeeth(prop, tier):
     for op, extra in cases:
         nm = f"squeeth/{op}" + "".join(f"/{k}" for k in extra)
         out.append(Scenario(nm, nv.nv_step, params=dict(dict(prop=prop, market="squeeth", op=op), **extra), entry=(f"SqueethMarket.{op}", "Broker.get_account_status"), canary=_canary(prop) if nm == "squeeth/deposit" else None, **kw))
+    if prop == "C04":
+        # invalid-argument rejections (unknown vault, position not in the vault, a second LP position for a vault that has one)
+        for op, extra in (("deposit_unknown_vault", {}), ("burn_unknown_vault", {}), ("withdraw_lp_not_in_vault", dict(lp=True)), ("mint_with_second_lp", dict(lp=True, free_lp=True))):
+            out.append(Scenario(f"squeeth/{op}", nv.nv_step, params=dict(dict(prop=prop, market="squeeth", op=op), **extra), entry=("SqueethMarket",), expect_outcomes=("rejected",), **kw))
     chains = [("mint", "burn_withdraw"), ("deposit_lp", "withdraw_lp"), ("buy_squeeth", "sell_squeeth")]
     for op, op2 in chains:
         if tier == "quick" and op != "deposit_lp":
